@@ -102,6 +102,8 @@ func main() {
 			freshKeyDuplexScenario(seed, workers, iters, &r, fail)
 		case "stream-duplex":
 			duplexScenario(seed, workers, iters, &r, fail)
+		case "mixed-policy-resume":
+			mixedPolicyScenario(seed, workers, iters, &r, fail)
 		default:
 			fail("unknown scenario %s", scen)
 		}
@@ -1045,4 +1047,142 @@ func duplexScenario(seed int64, workers, iters int, r *result, fail func(string,
 		}
 	}
 	r.Ops = workers * iters * 2
+}
+
+// mixed-policy-resume: connections with DIFFERENT local policies share one cache and one
+// cached session for the same peer/command. The session is negotiated unauthenticated;
+// clients with Authentication=OPTIONAL resume it, clients with Authentication=REQUIRED
+// look up the same entry, have the peer accept the resumption and then refuse it locally
+// (checkResumedSession). Refused and successful resumptions overlap. Post-conditions:
+// every handshake that reported success exchanges a message over its stream, and the key
+// bytes of the cached entry (shared, lock-free, by all of them) are unchanged.
+func mixedPolicyScenario(seed int64, workers, iters int, r *result, fail func(string, ...interface{})) {
+	const peer = "<192.0.2.17:9618>"
+	shared := security.NewSessionCache()
+	ctx, cancel := context.WithTimeout(context.Background(), 10*time.Minute)
+	defer cancel()
+	serverCfg := func() *security.SecurityConfig {
+		return &security.SecurityConfig{
+			AuthMethods:    []security.AuthMethod{security.AuthNone},
+			Authentication: security.SecurityOptional,
+			CryptoMethods:  []security.CryptoMethod{security.CryptoAES},
+			Encryption:     security.SecurityRequired,
+			Integrity:      security.SecurityRequired,
+		}
+	}
+	clientCfg := func(level security.SecurityLevel) *security.SecurityConfig {
+		return &security.SecurityConfig{
+			AuthMethods:    []security.AuthMethod{security.AuthNone},
+			Authentication: level,
+			CryptoMethods:  []security.CryptoMethod{security.CryptoAES},
+			Encryption:     security.SecurityRequired,
+			Integrity:      security.SecurityRequired,
+			Command:        commands.DC_NOP,
+			PeerName:       peer,
+			SessionCache:   shared,
+		}
+	}
+	type hs struct {
+		neg *security.SecurityNegotiation
+		err error
+	}
+	// one connection: both ends over an in-memory pipe; returns the client's verdict
+	connect := func(level security.SecurityLevel, tag string) (resumed bool, refused bool) {
+		sc, cc := net.Pipe()
+		defer sc.Close()
+		defer cc.Close()
+		cs, ss := stream.NewStream(cc), stream.NewStream(sc)
+		srvCh := make(chan hs, 1)
+		go func() {
+			neg, err := security.NewAuthenticator(serverCfg(), ss).ServerHandshake(ctx)
+			srvCh <- hs{neg, err}
+		}()
+		neg, err := security.NewAuthenticator(clientCfg(level), cs).ClientHandshake(ctx)
+		if err != nil {
+			_ = cc.Close()
+			_ = sc.Close()
+			<-srvCh
+			if level != security.SecurityRequired {
+				fail("%s: a client whose policy the session satisfies failed: %v", tag, err)
+			}
+			return false, true
+		}
+		if sr := <-srvCh; sr.err != nil {
+			fail("%s: server side of a handshake the client reports successful failed: %v", tag, sr.err)
+			return false, false
+		}
+		done := make(chan error, 1)
+		go func() {
+			m := message.NewMessageForStream(cs)
+			if err := m.PutInt(ctx, 424242); err != nil {
+				done <- err
+				return
+			}
+			done <- m.FinishMessage(ctx)
+		}()
+		got, err := message.NewMessageFromStream(ss).GetInt(ctx)
+		if err != nil || got != 424242 {
+			fail("%s: first message on a handshake that reported success (resumed=%v): got=%d err=%v (handshakes disturbed one another?)", tag, neg.SessionResumed, got, err)
+			_ = cc.Close()
+			_ = sc.Close()
+			<-done
+			return neg.SessionResumed, false
+		}
+		if err := <-done; err != nil {
+			fail("%s: send on a successful handshake: %v", tag, err)
+		}
+		return neg.SessionResumed, false
+	}
+	if res, ref := connect(security.SecurityOptional, "initial"); res || ref {
+		fail("initial handshake: resumed=%v refused=%v", res, ref)
+		return
+	}
+	snap := shared.Snapshot()
+	if len(snap) != 1 || snap[0].KeyInfo() == nil || len(snap[0].KeyInfo().Data) == 0 {
+		fail("initial session not cached with a key (%d entries)", len(snap))
+		return
+	}
+	entry := snap[0]
+	keyBefore := append([]byte(nil), entry.KeyInfo().Data...)
+	var mu sync.Mutex
+	nres, nref, ops := 0, 0, 0
+	for round := 0; round < iters; round++ {
+		var wg sync.WaitGroup
+		for w := 0; w < workers; w++ {
+			wg.Add(1)
+			level := security.SecurityOptional
+			if w%2 == 1 {
+				level = security.SecurityRequired
+			}
+			go func(w int) {
+				defer wg.Done()
+				res, ref := connect(level, fmt.Sprintf("round %d worker %d (%v)", round, w, level))
+				tick()
+				mu.Lock()
+				ops++
+				if res {
+					nres++
+				}
+				if ref {
+					nref++
+				}
+				mu.Unlock()
+			}(w)
+		}
+		wg.Wait()
+		if e, ok := shared.Lookup(entry.ID()); ok && !bytes.Equal(e.KeyInfo().Data, keyBefore) {
+			fail("round %d: the cached session's key bytes were modified (now %x...) by a connection's handshake", round, e.KeyInfo().Data[:4])
+			break
+		}
+	}
+	r.Ops = ops
+	if nres == 0 {
+		fail("no connection resumed the shared session")
+	}
+	if nref == 0 {
+		fail("no resumption was refused by a stricter local policy (scenario vacuous)")
+	}
+	if !bytes.Equal(entry.KeyInfo().Data, keyBefore) {
+		fail("the cached session's key bytes changed")
+	}
 }
